@@ -386,6 +386,45 @@ def rule_hooks(ctx):
                       '%s:%d' % (gs.module.rel, gs.lineno))
         if dc is not None:
             sn = dc.params[0]
+            # a __deepcopy__ that starts from a shallow copy of self shares
+            # every attribute it does not deep-copy afterwards
+            shallow = [n for n in own_nodes(dc) if isinstance(n, ast.Call) and (
+                ctx.cg.resolve_name_expr(dc, n.func) in (
+                    ('ext', 'copy.copy'),) if isinstance(
+                    n.func, (ast.Name, ast.Attribute)) else False)
+                and n.args and isinstance(n.args[0], ast.Name)
+                and n.args[0].id == sn]
+            if shallow:
+                rr.instances += 1
+                deep_attrs = set()
+                for n in own_nodes(dc):
+                    if isinstance(n, ast.Assign) and isinstance(
+                            n.value, ast.Call) and norm_src(n.value.func) in (
+                            'copy.deepcopy', 'deepcopy'):
+                        for t in n.targets:
+                            if isinstance(t, ast.Attribute):
+                                deep_attrs.add(t.attr)
+                ext = p.ext_bases(c)
+                left = sorted(a for a, v in attrs.items()
+                              if a not in deep_attrs and not isinstance(
+                                  v, ast.Constant))
+                if ext or left:
+                    what = ('the attributes set by its base class %s (not '
+                            'visible here, none of them copied)' % ', '.join(
+                                str(b) for b in ext)) if ext else \
+                        'the attributes %s' % ', '.join(left)
+                    rr.fail(key_of(dc, 'deep copy built on a shallow copy'),
+                            '%s.__deepcopy__ starts from `copy.copy(self)` and '
+                            'deep-copies only %s: %s stay shared between the '
+                            'original and its copy, so evaluating one can '
+                            'disturb the other' % (
+                                c.name, ', '.join(sorted(deep_attrs)) or
+                                'nothing', what), file=dc.module.rel,
+                            function=dc.qualname, line=shallow[0].lineno)
+                else:
+                    rr.ok('%s.__deepcopy__ deep-copies every attribute after '
+                          'the shallow copy' % c.name,
+                          '%s:%d' % (dc.module.rel, dc.lineno))
             for n in own_nodes(dc):
                 if not (isinstance(n, ast.Assign) and len(n.targets) == 1 and
                         isinstance(n.targets[0], ast.Attribute)):
